@@ -223,7 +223,10 @@ def sig_of(pm, fn):
             ext.append({"name": g["name"], "ret": g["ret"], "args": list(g["args"])})
         elif g["k"] == "xvar":
             return None, "external variable"
-    gl = [[g["name"], g["size"]] for g in pm["globals"] if g["k"] == "var" and g.get("binding", "global") == "global"]
+    # (variables whose initial value contains addresses - function pointer tables - are not reported: the native
+    # address differs from the pseudo address of IR.tla's memory layout)
+    gl = [[g["name"], g["size"]] for g in pm["globals"] if g["k"] == "var" and g.get("binding", "global") == "global"
+          and not any(part.get("k") == "r" for part in (g.get("init") or []))]
     return {"fn": fn, "ret": f["ret"], "params": ptys, "externs": ext, "globals": gl}, None
 
 
@@ -264,6 +267,7 @@ def unit_c(u, weak=False):
             body.append("putch(' '); puthex((unsigned long long)a%d, %d);" % (k, NBYTES[t]))
         body.append("putch(10);")
         body.append("k = n_%s; n_%s = k + 1;" % (n, n))
+        body.append("CLOBBER_CALLER_SAVED")
         if x["ret"]:
             nb = NBYTES[x["ret"]]
             for k, wv in enumerate(tab.get(x["name"], [])):
@@ -421,7 +425,11 @@ def gcc_link(wd, objs):
 
 def gcc_driver_text(units, ids):
     rows = []
-    parts = ["#define WEAKSYM __attribute__((weak))", PRELUDE, GCC_BSP]
+    # an external function may destroy every caller-saved register: the gcc-compiled stubs really do
+    clobber = ('#define CLOBBER_CALLER_SAVED __asm__ volatile("movabsq $0x5a5a5a5a5a5a5a5a, %%rcx; movq %%rcx, %%rdx; '
+               'movq %%rcx, %%rsi; movq %%rcx, %%rdi; movq %%rcx, %%r8; movq %%rcx, %%r9; movq %%rcx, %%r10; movq %%rcx, %%r11" '
+               '::: "rcx", "rdx", "rsi", "rdi", "r8", "r9", "r10", "r11");')
+    parts = ["#define WEAKSYM __attribute__((weak))", clobber, PRELUDE, GCC_BSP]
     for u, uid in zip(units, ids):
         parts.append(unit_c(u, weak=True))
         rows.append("  {run_%s, (void *)%s%s, %d, %d}," % (u.prefix, u.prefix, u.sig["fn"], uid, len(u.vecs)))
@@ -522,7 +530,7 @@ def crt0_obj():
 
 
 def ppci_driver_text(u):
-    return ("#define WEAKSYM\n" + PRELUDE + unit_c(u) +
+    return ("#define WEAKSYM\n#define CLOBBER_CALLER_SAVED\n" + PRELUDE + unit_c(u) +
             "int main(int argc, char **argv) { int v; v = argv[1][0] - 'a'; return run_%s(v); }\n" % u.prefix)
 
 
